@@ -1,5 +1,6 @@
 import PystogVerif.Props.C10
 import PystogVerif.Proofs.Transform
+import PystogVerif.Proofs.Converter
 
 /-!
 # C11 — dataset ingestion crops, rescales, offsets, windows and converts each input faithfully
@@ -20,8 +21,7 @@ theorem P_step_history_free (st : Rows ℝ × Rows ℝ) (info : Info ℝ) :
     addDataset cfg st info = (st.1.append (datasetRows cfg info).1, st.2.append (datasetRows cfg info).2) := rfl
 
 /-- P: both storage arrays stay aligned: the S(Q) row carries exactly the Q values of the as-given row -/
-theorem P_stores_same_Q (info : Info ℝ) : (datasetRows cfg info).1.x = (datasetRows cfg info).2.x := by
-  simp only [datasetRows] <;> (try split_ifs) <;> rfl
+theorem P_stores_same_Q (info : Info ℝ) : (datasetRows cfg info).1.x = (datasetRows cfg info).2.x := rfl
 
 /-- invariant over any sequence of `add_dataset` calls -/
 theorem P_stores_aligned_invariant (ds : List (Info ℝ)) : (ingestAll cfg ds).1.x = (ingestAll cfg ds).2.x := by
@@ -56,18 +56,18 @@ theorem mem_compress_of_mem (m : List Bool) (x : List ℝ) (v : ℝ) (h : v ∈ 
 /-- P: no stored point lies outside the global Qmin/Qmax window -/
 theorem P_no_point_outside_window (info : Info ℝ) (v : ℝ) (hv : v ∈ (datasetRows cfg info).1.x) :
     (∀ a, cfg.qmin = some a → a ≤ v) ∧ (∀ b, cfg.qmax = some b → v ≤ b) := by
-  simp only [datasetRows] at hv
+  simp only [datasetRows, globalStage, compressRows] at hv
   constructor
   · intro a ha
     rw [ha] at hv
     rcases hb : cfg.qmax with _ | b
     · simp only [hb] at hv
-      split_ifs at hv <;> exact mem_compress_ge _ a v hv
+      exact mem_compress_ge _ a v hv
     · simp only [hb] at hv
-      split_ifs at hv <;> exact mem_compress_ge _ a v (mem_compress_of_mem _ _ v hv)
+      exact mem_compress_ge _ a v (mem_compress_of_mem _ _ v hv)
   · intro b hb
     rw [hb] at hv
-    split_ifs at hv <;> exact mem_compress_le _ b v hv
+    exact mem_compress_le _ b v hv
 
 /-- P: the stored S(Q) row is exactly the conversion of the stored as-given row with the instance's scattering lengths -/
 theorem P_sq_row_is_conversion (info : Info ℝ) :
@@ -78,7 +78,7 @@ theorem P_sq_row_is_conversion (info : Info ℝ) :
        else if info.kind == 2 then Converter.FK_to_S kwb noJunk r.x r.y (some r.dy)
        else if info.kind == 3 then Converter.DCS_to_S kwb noJunk r.x r.y (some r.dy)
        else (r.y, r.dy)) := by
-  simp only [datasetRows] <;> (try split_ifs) <;> rfl
+  simp only [datasetRows, toSq]
 
 /-- P: y is scaled then offset, the uncertainty is scaled only, Q is shifted by the Q offset -/
 theorem P_scale_offset (x y dy : List ℝ) (ys yo xo : ℝ) :
@@ -95,12 +95,12 @@ theorem P_plain_dataset_stored_whole (info : Info ℝ) (hq : info.qmin = none) (
   have hall : ∀ a ∈ Numpy.aroundV 2 info.x, Vec.min (Numpy.aroundV 2 info.x) ≤ a ∧ a ≤ Vec.max (Numpy.aroundV 2 info.x) :=
     fun a ha => ⟨vec_min_le _ a ha, vec_le_max _ a ha⟩
   rcases hdy : info.dy with _ | e
-  · simp only [datasetRows, hdy, hq, hq', hy, hx, hc, hc', Bool.or_false, Bool.false_eq_true, if_false]
+  · simp only [datasetRows, globalStage, adjustStage, cropStage, roundedDy, orElse, hdy, hq, hq', hy, hx, hc, hc', Bool.or_false, Bool.false_eq_true, if_false]
     rw [apply_cropping_spec _ _ _ _ _ _ _ hlen (fun d h => by cases h; simp [Numpy.aroundV, Vec.zerosLike, hl])]
     constructor
     · exact cropL_all _ _ _ _ rfl hall
     · exact cropL_all _ _ _ _ hlen hall
-  · simp only [datasetRows, hdy, hq, hq', hy, hx, hc, hc', Bool.or_false, Bool.false_eq_true, if_false]
+  · simp only [datasetRows, globalStage, adjustStage, cropStage, roundedDy, orElse, hdy, hq, hq', hy, hx, hc, hc', Bool.or_false, Bool.false_eq_true, if_false]
     rw [apply_cropping_spec _ _ _ _ _ _ _ hlen (fun d h => by cases h; simp [Numpy.aroundV, hd e hdy])]
     constructor
     · exact cropL_all _ _ _ _ rfl hall
@@ -113,6 +113,211 @@ theorem P_stored_is_concatenation (ds : List (Info ℝ)) (hal : ∀ d ∈ ds, C1
   have hempty : C10.Aligned (Rows.empty : Rows ℝ) := by simp [C10.Aligned, Rows.empty]
   have := (C10.ingest_foldl cfg ds (Rows.empty, Rows.empty) hempty hal).2
   simpa [ingestAll, zip3, Rows.empty] using this
+
+/-! ### The stored rows, point by point (full statement of "crop, scale/offset, shift, global window; nothing else") -/
+
+/-- three parallel columns filtered by a mask computed from the first one = the triples filtered by the predicate -/
+theorem zip3_compress (p : ℝ → Bool) : ∀ (x y dy : List ℝ), x.length = y.length → x.length = dy.length →
+    zip3 ⟨Vec.compress (x.map p) x, Vec.compress (x.map p) y, Vec.compress (x.map p) dy⟩
+      = (zip3 ⟨x, y, dy⟩).filter (fun t => p t.1)
+  | [], _, _, _, _ => by simp [zip3, Vec.compress]
+  | a :: x, [], _, h, _ => by simp at h
+  | a :: x, _ :: _, [], _, h => by simp at h
+  | a :: x, b :: y, c :: dy, h1, h2 => by
+      have ih := zip3_compress p x y dy (by simpa using h1) (by simpa using h2)
+      simp only [zip3, Vec.compress, List.map_cons, List.zip_cons_cons, List.filter_cons, List.zipWith_cons_cons] at ih ⊢
+      cases hp : p a <;> simp [ih]
+
+theorem zip3_map (f g h : ℝ → ℝ) : ∀ (x y dy : List ℝ),
+    zip3 ⟨x.map f, y.map g, dy.map h⟩ = (zip3 ⟨x, y, dy⟩).map (fun t => (f t.1, g t.2.1, h t.2.2))
+  | [], _, _ => by simp [zip3]
+  | _ :: _, [], _ => by simp [zip3]
+  | _ :: _, _ :: _, [] => by simp [zip3]
+  | a :: x, b :: y, c :: dy => by
+      have ih := zip3_map f g h x y dy
+      simp only [zip3, List.map_cons, List.zip_cons_cons, List.zipWith_cons_cons] at ih ⊢
+      rw [ih]
+
+theorem compress_length_eq (m : List Bool) : ∀ (x y : List ℝ), x.length = y.length →
+    (Vec.compress m x).length = (Vec.compress m y).length := by
+  induction m with
+  | nil => intro x y _; simp [Vec.compress]
+  | cons b m ih =>
+    intro x y h
+    cases x with
+    | nil => cases y with
+      | nil => rfl
+      | cons _ _ => simp at h
+    | cons a x => cases y with
+      | nil => simp at h
+      | cons c y =>
+        have := ih x y (by simpa using h)
+        simp only [Vec.compress, List.zip_cons_cons, List.filter_cons, List.length_map] at this ⊢
+        cases b <;> simp [this]
+
+theorem aligned_compressRows (m : List Bool) (r : Rows ℝ) (h : C10.Aligned r) : C10.Aligned (compressRows m r) :=
+  ⟨compress_length_eq m _ _ h.1, compress_length_eq m _ _ h.2⟩
+
+/-- the rows of a dataset at storage precision (Q to 2 decimals, values to 16), as triples -/
+def rounded (info : Info ℝ) : List (Pt ℝ) :=
+  zip3 ⟨Numpy.aroundV 2 info.x, Numpy.aroundV 16 info.y, roundedDy info⟩
+
+/-- per-dataset window [Qmin, Qmax]; an absent limit means the smallest / largest (rounded) Q of the dataset -/
+def perLo (info : Info ℝ) : ℝ := orElse info.qmin (Vec.min (Numpy.aroundV 2 info.x))
+def perHi (info : Info ℝ) : ℝ := orElse info.qmax (Vec.max (Numpy.aroundV 2 info.x))
+def inPer (info : Info ℝ) (t : Pt ℝ) : Bool := decide (perLo info ≤ t.1) && decide (t.1 ≤ perHi info)
+
+/-- y scaled then offset, uncertainty scaled only, Q shifted by the Q offset and kept on the 0.01 lattice
+    (only when the dataset carries an "X" or "Y" entry at all) -/
+def adjust (info : Info ℝ) (t : Pt ℝ) : Pt ℝ :=
+  if info.hasY || info.hasX then
+    (Numpy.around 2 (t.1 + orElse info.xoffset ((0:Nat):ℝ)),
+     t.2.1 * orElse info.yscale ((1:Nat):ℝ) + orElse info.yoffset ((0:Nat):ℝ),
+     t.2.2 * orElse info.yscale ((1:Nat):ℝ))
+  else t
+
+/-- global window of the instance -/
+def inGlobal (t : Pt ℝ) : Bool :=
+  (match cfg.qmin with | some a => decide (a ≤ t.1) | none => true) &&
+  (match cfg.qmax with | some b => decide (t.1 ≤ b) | none => true)
+
+theorem rounded_aligned (info : Info ℝ) (hl : info.x.length = info.y.length)
+    (hd : ∀ d, info.dy = some d → info.x.length = d.length) :
+    (Numpy.aroundV 2 info.x).length = (Numpy.aroundV 16 info.y).length ∧
+    (Numpy.aroundV 2 info.x).length = (roundedDy info).length := by
+  constructor
+  · simp [Numpy.aroundV, hl]
+  · unfold roundedDy
+    rcases h : info.dy with _ | d
+    · simp [Numpy.aroundV, Vec.zerosLike, hl]
+    · simp [Numpy.aroundV, hd d h]
+
+theorem cropStage_eq (info : Info ℝ) :
+    cropStage info = compressRows ((Numpy.aroundV 2 info.x).map (fun a => decide (perLo info ≤ a) && decide (a ≤ perHi info)))
+      ⟨Numpy.aroundV 2 info.x, Numpy.aroundV 16 info.y, roundedDy info⟩ := by
+  simp only [cropStage, Transformer.apply_cropping, window_mask, compressRows, perLo, perHi]
+  rfl
+
+theorem zip3_cropStage (info : Info ℝ) (hl : info.x.length = info.y.length)
+    (hd : ∀ d, info.dy = some d → info.x.length = d.length) :
+    zip3 (cropStage info) = (rounded info).filter (inPer info) := by
+  obtain ⟨h1, h2⟩ := rounded_aligned info hl hd
+  rw [cropStage_eq]
+  exact zip3_compress _ _ _ _ h1 h2
+
+theorem aligned_cropStage (info : Info ℝ) (hl : info.x.length = info.y.length)
+    (hd : ∀ d, info.dy = some d → info.x.length = d.length) : C10.Aligned (cropStage info) := by
+  rw [cropStage_eq]
+  exact aligned_compressRows _ _ (rounded_aligned info hl hd)
+
+theorem zip3_adjustStage (info : Info ℝ) (r : Rows ℝ) : zip3 (adjustStage info r) = (zip3 r).map (adjust info) := by
+  unfold adjustStage adjust
+  by_cases h : (info.hasY || info.hasX) = true
+  · simp only [h, if_true, applyScalesAndOffset, Vec.mulS, Vec.addS, Numpy.aroundV, List.map_map]
+    rw [zip3_map]
+    apply List.map_congr_left
+    intro t _
+    simp only [Function.comp]
+  · simp only [h, if_false]
+    simp
+
+theorem aligned_adjustStage (info : Info ℝ) (r : Rows ℝ) (h : C10.Aligned r) : C10.Aligned (adjustStage info r) := by
+  unfold adjustStage
+  split_ifs
+  · simpa [C10.Aligned, applyScalesAndOffset, Vec.mulS, Vec.addS, Numpy.aroundV] using h
+  · exact h
+
+theorem zip3_globalStage (r : Rows ℝ) (h : C10.Aligned r) : zip3 (globalStage cfg r) = (zip3 r).filter (inGlobal cfg) := by
+  unfold globalStage inGlobal
+  rcases ha : cfg.qmin with _ | a <;> rcases hb : cfg.qmax with _ | b
+  · simp
+  · simp only [compressRows, Vec.leS]
+    rw [zip3_compress _ _ _ _ h.1 h.2]
+    simp
+  · simp only [compressRows, Vec.geS]
+    rw [zip3_compress _ _ _ _ h.1 h.2]
+    simp
+  · have h' := aligned_compressRows (Vec.geS r.x a) r h
+    simp only [compressRows, Vec.leS, Vec.geS] at h' ⊢
+    rw [zip3_compress _ _ _ _ h'.1 h'.2, zip3_compress _ _ _ _ h.1 h.2, List.filter_filter]
+    apply List.filter_congr
+    intro t _
+    simp [Bool.and_comm]
+
+/-- P (full statement): the stored as-given rows of a dataset are exactly its rounded rows inside the per-dataset window, each
+    scaled / offset / shifted, then those inside the global window — in order, with multiplicity, nothing else -/
+theorem P_stored_spec (info : Info ℝ) (hl : info.x.length = info.y.length)
+    (hd : ∀ d, info.dy = some d → info.x.length = d.length) :
+    zip3 (datasetRows cfg info).1 = (((rounded info).filter (inPer info)).map (adjust info)).filter (inGlobal cfg) := by
+  simp only [datasetRows]
+  rw [zip3_globalStage cfg _ (aligned_adjustStage info _ (aligned_cropStage info hl hd)), zip3_adjustStage,
+    zip3_cropStage info hl hd]
+
+/-- P: no point inside both windows is lost: every rounded row inside the per-dataset window whose adjusted Q lies inside the
+    global window is stored (as its adjusted triple) -/
+theorem P_no_point_inside_both_windows_lost (info : Info ℝ) (hl : info.x.length = info.y.length)
+    (hd : ∀ d, info.dy = some d → info.x.length = d.length) (t : Pt ℝ) (ht : t ∈ rounded info)
+    (h1 : inPer info t = true) (h2 : inGlobal cfg (adjust info t) = true) :
+    adjust info t ∈ zip3 (datasetRows cfg info).1 := by
+  rw [P_stored_spec cfg info hl hd]
+  exact List.mem_filter.mpr ⟨List.mem_map.mpr ⟨t, List.mem_filter.mpr ⟨ht, h1⟩, rfl⟩, h2⟩
+
+/-- P: and with its multiplicity -/
+theorem P_stored_count (info : Info ℝ) (hl : info.x.length = info.y.length)
+    (hd : ∀ d, info.dy = some d → info.x.length = d.length) :
+    (zip3 (datasetRows cfg info).1).length
+      = (((rounded info).filter (inPer info)).map (adjust info)).countP (inGlobal cfg) := by
+  rw [P_stored_spec cfg info hl hd, List.countP_eq_length_filter]
+
+/-- P: the stored rows stay aligned (premise of the merge theorems of C10, discharged here for every dataset) -/
+theorem P_dataset_rows_aligned (info : Info ℝ) (hl : info.x.length = info.y.length)
+    (hd : ∀ d, info.dy = some d → info.x.length = d.length) : C10.Aligned (datasetRows cfg info).1 := by
+  simp only [datasetRows, globalStage]
+  have h := aligned_adjustStage info _ (aligned_cropStage info hl hd)
+  rcases cfg.qmin with _ | a <;> rcases cfg.qmax with _ | b
+  · exact h
+  · exact aligned_compressRows _ _ h
+  · exact aligned_compressRows _ _ h
+  · exact aligned_compressRows _ _ (aligned_compressRows _ _ h)
+
+/-- the S(Q) row is aligned as well (the conversions keep lengths) -/
+theorem P_sq_rows_aligned (info : Info ℝ) (hb : cfg.bcoh ≠ 0) (hl : info.x.length = info.y.length)
+    (hd : ∀ d, info.dy = some d → info.x.length = d.length) : C10.Aligned (datasetRows cfg info).2 := by
+  have hr := P_dataset_rows_aligned cfg info hl hd
+  set r := (datasetRows cfg info).1 with hrdef
+  have hxy : r.x.length = r.y.length := hr.1
+  have hxd : r.x.length = r.dy.length := hr.2
+  have hsome : ∀ d, some r.dy = some d → r.x.length = d.length := by intro d h; cases h; exact hxd
+  show C10.Aligned (toSq cfg info.kind r)
+  unfold toSq C10.Aligned
+  set kwb : Kw ℝ := { (Kw.none : Kw ℝ) with bcoh := cfg.bcoh, btot := cfg.btot } with hk
+  by_cases h1 : (info.kind == 1) = true
+  · simp only [h1, if_true]
+    have v := rconv_val_SF (Kw.none : Kw ℝ) noJunk .F .S (Or.inr rfl) (Or.inl rfl) r.x r.y (some r.dy) hxy
+    have u := rconv_unc_SF (Kw.none : Kw ℝ) noJunk .F .S (Or.inr rfl) (Or.inl rfl) r.x r.y (some r.dy) hxy hsome
+    simp only [GenTable.rconv] at v u
+    rw [v, u]; simp only [Option.getD, List.length_zipWith]; omega
+  · by_cases h2 : (info.kind == 2) = true
+    · simp only [h1, h2, if_true, if_false, Bool.false_eq_true]
+      have v := rconv_val kwb noJunk .FK .S hb r.x r.y (some r.dy) hxy
+      have u := rconv_unc kwb noJunk .FK .S hb r.x r.y (some r.dy) hxy hsome
+      simp only [GenTable.rconv] at v u
+      rw [v, u]; simp only [Option.getD, List.length_zipWith]; omega
+    · by_cases h3 : (info.kind == 3) = true
+      · simp only [h1, h2, h3, if_true, if_false, Bool.false_eq_true]
+        have v := rconv_val kwb noJunk .DCS .S hb r.x r.y (some r.dy) hxy
+        have u := rconv_unc kwb noJunk .DCS .S hb r.x r.y (some r.dy) hxy hsome
+        simp only [GenTable.rconv] at v u
+        rw [v, u]; simp only [Option.getD, List.length_zipWith]; omega
+      · simp only [h1, h2, h3, if_false, Bool.false_eq_true]
+        exact ⟨hxy, hxd⟩
+
+/-- P (C10, premise discharged): for well-formed datasets (three columns of equal length) and ⟨b_coh⟩² ≠ 0 the merged
+    result does not depend on the order in which the datasets were added -/
+theorem P_merge_order_independent_wf (ds₁ ds₂ : List (Info ℝ)) (h : ds₁.Perm ds₂) (hb : cfg.bcoh ≠ 0)
+    (hwf : ∀ d ∈ ds₁, d.x.length = d.y.length ∧ ∀ e, d.dy = some e → d.x.length = e.length) :
+    mergePts (C10.storedPts cfg ds₁) = mergePts (C10.storedPts cfg ds₂) :=
+  C10.P_merge_order_independent cfg ds₁ ds₂ h (fun d hd => P_sq_rows_aligned cfg d hb (hwf d hd).1 (hwf d hd).2)
 
 example : applyScalesAndOffset [(1:ℝ)] [2] [0.5] 3 1 0.25 = ([1.25], [7], [1.5]) := by
   simp [applyScalesAndOffset, Vec.mulS, Vec.addS]; norm_num
